@@ -295,3 +295,12 @@ def m_is_alnum(c, call, ch): return z3.Or(rng(ch, 0x30, 0x39), rng(ch, 0x41, 0x5
 def m_is_hex(c, call, ch): return z3.Or(rng(ch, 0x30, 0x39), rng(ch, 0x41, 0x46), rng(ch, 0x61, 0x66))
 @reg('nom::character::complete::digit1', 'character::complete::digit1', 'digit1')
 def m_digit1(c, call, i): return tw(c, PyFn(lambda ch: rng(ch, 0x30, 0x39)), i, True, 'Digit')
+
+
+@reg('peek', 'nom::combinator::peek', 'combinator::peek')
+def m_peek(c, call, p):
+    def f(i):
+        r = c.callf(p, [i])
+        if r.variant == 'Err': return r
+        return Ok(Tup([i, r.fields[0][1]]))
+    return PyFn(f, 'peek')
